@@ -243,14 +243,19 @@ def py_update(col, ops):
     return {col: upd}, seed
 
 
-def dump_tree(store, keep):
+LINKS = []
+
+
+def dump_tree(store, keep, path=()):
     from vivarium.core.process import Process
     keep.append(store)
+    if tuple(store.path_for()) != tuple(path):
+        LINKS.append([list(path), list(store.path_for())])
     if isinstance(store.value, Process):
         keep.append(store.value)
         return ['proc', id(store), id(store.value), bool(store.value.is_step())]
     if store.inner or not store.leaf:
-        return ['dir', id(store), {k: dump_tree(v, keep) for k, v in store.inner.items()}]
+        return ['dir', id(store), {k: dump_tree(v, keep, path + (k,)) for k, v in store.inner.items()}]
     return ['var', id(store), store.value]
 
 
@@ -324,9 +329,10 @@ def run_history(hist):
         except Exception as e:
             obs.append({'err': type(e).__name__ + ':' + str(e)[:150]})
             break
+        del LINKS[:]
         cur = dump_tree(eng.state, keep)
         nodes, objs = index_ids(prev)
-        obs.append({'tree': annotate(cur, nodes, objs), 'book': observe_book(eng)})
+        obs.append({'tree': annotate(cur, nodes, objs), 'book': observe_book(eng), 'links': list(LINKS)})
         prev = cur
     return obs, eng, keep
 
